@@ -142,6 +142,6 @@ META = {
              'as well-typed programs of VM.tla (adding SIZE, ITER and MAP), are replayed in pytezos with the whole collection and every observation compared after each '
              'step; every literal of up to 3 keys is pushed in pytezos and must be accepted exactly when strictly sorted.'),
     'design_ref': 'DESIGN.md section 5 C14, A.2',
-    'note': 'Trusted: MichSem order (checked by C03), terms.py. Bounds: 3 keys and 2 values per key type, histories of 4 (5) dictionary operations in Coll.tla, 3 (4) compound steps in the replayed programs.',
+    'note': 'Trusted: MichSem order (checked by C03), terms.py. Bounds: 3 keys and 2 values per key type, histories of 4 (5) dictionary operations in Coll.tla, 3 (4) compound steps in the replayed programs; plus maps and sets of 9 / 17 / 20 integer keys with 2 (3) steps (lookups and updates below, inside and above the key range).',
     'technique': 'TLA+ sorted-collection model vs reference dictionary, TLC exhaustive over histories; replay of histories and literals into pytezos',
 }
